@@ -173,3 +173,15 @@ pub fn any_vec<const L: usize>() -> Vec<u8> {
     let a: [u8; L] = kani::any();
     a.to_vec()
 }
+
+/// A `Vec<T>` whose buffer is a caller-owned *typed* array instead of a heap allocation.
+/// Why: CBMC models `__rust_alloc` memory as an untyped byte array; pointers and lengths of *nested* vectors that are
+/// read back from such memory (e.g. `tx.input[0].witness.script_witness`) are no longer constant-folded, so every loop
+/// over a nested vector becomes unbounded.  With the elements living in a typed local array the reads stay
+/// field-sensitive.  The returned Vec must never be dropped, grown or shrunk (harnesses `mem::forget` the owner).
+pub unsafe fn vec_over<T, const N: usize>(store: &mut core::mem::ManuallyDrop<[T; N]>) -> Vec<T> {
+    if N == 0 {
+        return Vec::new();
+    }
+    Vec::from_raw_parts(store.as_mut_ptr() as *mut T, N, N)
+}
